@@ -19,6 +19,16 @@ CLAIMED = {
     level="Effect analysis over every public callable (256 today): no in-place write may reach an object aliasing a caller-owned array (parameters, **kwargs values, constructor arguments kept in self attributes), value classes only mutate their storage through the explicit in-place API, no caches/mutable defaults/unintended RNG. The property quantifies over all callables and arguments, which is exactly what an effect analysis covers and sampling cannot.",
     note="May-analysis over the ast; rows obtained by integer indexing/unpacking are treated as immutable elements (documented rank-1 inputs); NumPy fresh/view/in-place behaviour from the table in sa/flow.py.",
     ref="DESIGN.md §2 C19"),
+ "C03": dict(
+    technique="forward must-fact dataflow with value numbering (UNIT / REAL facts at every return path of 25 estimator entry points), structural loop-shape rule (COUNT), AVN proof of sum q^2 = 1 for Euler blocks",
+    level="Every value-returning path of every estimator entry point must carry the must-fact UNIT and no complex taint; every batch routine's allocation, loop bounds and row stores must agree. A deleted normalisation, an eig without .real, an off-by-one loop bound or np.sum(generator) is reported at the construct. Finiteness under divisions by computed quantities is not decided.",
+    note="Derivations of UNIT are the idioms listed in DESIGN.md A.2; parameters named as the previous attitude are assumed unit; NumPy 2's eig is complex-typed.",
+    ref="DESIGN.md §2 C03"),
+ "C13": dict(
+    technique="path-sensitive must-fact dataflow (NZ facts from guards, value-numbered norms) over the per-sample code of the nine recursive filters: GUARD-DIV, UNIT-RET on dropout arms, CONFIG-FROZEN",
+    level="Every division by the norm of a raw sensor sample is dominated by a zero-norm guard on all paths, every early-return arm returns a unit quaternion, and per-sample code never re-assigns configuration. These are the structural necessary conditions for 'a dropout never yields NaN/non-unit output nor changes later processing'; recovery accuracy is not decided.",
+    note="Sensor parameters are the non-attitude parameters of the listed functions; guard idioms as in DESIGN.md A.3.",
+    ref="DESIGN.md §2 C13"),
 }
 
 NOT_YET = "check not built yet in this session (work in progress; see DESIGN.md §2 for the planned static rules)"
